@@ -190,3 +190,47 @@ def run_enum(spec: dict, profile: str, nshards=16, env_extra=None):
             spath.unlink(missing_ok=True)
     summary["died"] = died
     return anomalies, summary
+
+
+def decl_mutants(rng: random.Random, n: int):
+    """declaration-level edits of model-rendered accepted grammars: texts that stay syntactically valid (often even
+    error-free) but have unusual *semantic* shapes - rules without a body, parts that nobody refers to, rules that
+    became unreachable, declarations removed / doubled / reordered"""
+    from .gvalid import GValid
+    from .model import render
+    gv = GValid(rng)
+    out = 0
+    while out < n:
+        g, _ = gv.grammar()
+        if g is None:
+            continue
+        lines = render(g).split("\n")
+        g.text = None
+        rules = [i for i, l in enumerate(lines) if re.match(r"^[a-z]\w* \^? ?:", l)]
+        names = [lines[i].split()[0] for i in rules]
+        for _ in range(6):
+            t = list(lines)
+            for _ in range(rng.choice([1, 1, 2, 3])):
+                op = rng.choice(["empty_body", "part", "part", "drop", "dup", "swap", "start", "skip_rule", "empty_part"])
+                ri = [i for i, l in enumerate(t) if re.match(r"^[a-z]\w* \^? ?:", l)]
+                if op == "empty_body" and ri:
+                    i = rng.choice(ri)
+                    t[i] = t[i].split(":")[0] + ": ;"
+                elif op == "part" and names:
+                    t.append("part " + rng.choice(names) + " ;")
+                elif op == "empty_part":
+                    t.append("lonely_part : ;")
+                    t.append("part lonely_part ;")
+                elif op == "drop" and len(t) > 2:
+                    del t[rng.randrange(len(t))]
+                elif op == "dup":
+                    t.append(rng.choice(t))
+                elif op == "swap" and len(t) > 2:
+                    a, b = rng.randrange(len(t)), rng.randrange(len(t))
+                    t[a], t[b] = t[b], t[a]
+                elif op == "start" and names:
+                    t = [l for l in t if not l.startswith("start ")] + ["start " + rng.choice(names) + " ;"]
+                elif op == "skip_rule" and names:
+                    t.append("skip " + rng.choice(names) + " ;")
+            yield "\n".join(t) + "\n"
+            out += 1
